@@ -10,6 +10,8 @@ CONSTANTS
   SweepAlphabet <- MC_RetrySweeps
   DecoAlphabet <- MC_RetryDeco
   BigChoices <- MC_SmallTol
+  ZeroChoices <- MC_NoZero
+  ZeroToleranceFallsBack = FALSE
   LaggedRecordedAtSetup = FALSE
   Hyp_NoCap = FALSE
 INVARIANT TypeOK
